@@ -201,7 +201,9 @@ def run(ck):
             "called on a pollable queue outside that wrapper", 5)
     summ6 = lib.Summaries(prog)
     def links(e):
-        return e["k"] == "call" and e.base_callee() in ("std::atomic::exchange", "std::__atomic_base::exchange") and strip_tmpl((e.get("recv") or {}).get("f") or "") == "Pistache::Queue::head"
+        # any atomic write of Queue::head (exchange, or whatever a changed push uses instead: store, compare_exchange)
+        return e["k"] == "call" and e.base_callee().rsplit("::", 1)[-1] in ("exchange", "store", "compare_exchange_strong", "compare_exchange_weak", "operator=") and \
+            e.base_callee().startswith(("std::atomic", "std::__atomic_base")) and strip_tmpl((e.get("recv") or {}).get("f") or "") == "Pistache::Queue::head"
     npq = 0
     for f in prog.library_funcs():
         for e in f.events("call"):
